@@ -75,6 +75,10 @@ def plan_for(pid, tier):
     P["C13"] = [("syn", 40 if q else 400, 10)]
     if pid in ("C12", "C13"):
         common["life_cfg"] = "LifeSynQ.cfg" if q else "LifeSyn.cfg"
+    P["C10"] = [("buildseq", 12 if q else 150, 8), ("buildstress", 2 if q else 12, 5, "race")]
+    if pid == "C10":
+        common.update(life_module="BuildPool", life_cfg="BuildPoolQ.cfg" if q else "BuildPool.cfg", replay_args=["-nogc"], attr_all=True,
+                      invariants=["BuildIndependent", "AllWF"])
     common["walks"] = 500 if q else 8000
     common["walk_bias"] = "merge" if pid in ("C05", "C06", "C13") else "build"
     if pid == "C03":
@@ -122,8 +126,15 @@ def sample_walks(out_path, n, seed, sc, bias="build"):
     return total, walks
 
 
+RACES = []
+
+
 def harness(zx, args, sc, timeout=1800):
     p = subprocess.run([zx] + args, cwd=sc.dir, stdout=subprocess.PIPE, stderr=subprocess.STDOUT, text=True, timeout=timeout)
+    if "WARNING: DATA RACE" in p.stdout:
+        # the race detector has no false positives; a race inside the library is a verdict (DESIGN 8.3)
+        RACES.append(p.stdout[p.stdout.index("WARNING: DATA RACE"):][:6000])
+        return p.stdout
     if p.returncode == 3:
         # the watchdog ended the run inside a call of the code under test; the trace ends with an abort event
         log("harness: " + p.stdout.strip()[-300:])
@@ -233,21 +244,28 @@ def run_life_check(pid, tier, seed, replay=None, pre=None):
         if pre is None and plan.get("pre"):
             pre = plan["pre"](zx, sc, tier, seed, known)
         # G
-        outp, lst = tlc(sc, "Life", cfg=plan["life_cfg"], workers=8, timeout=plan["life_timeout"], outname="life.out")
+        module = plan.get("life_module", "Life")
+        outp, lst = tlc(sc, module, cfg=plan["life_cfg"], workers=8, timeout=plan["life_timeout"], outname="life.out")
         errs = tlc_errors(outp)
         if errs:
             raise Inconclusive("Life model: " + "; ".join(errs[:3]))
         total_walks, walks = sample_walks(outp, plan["walks"], seed, sc, plan["walk_bias"])
         os.remove(outp)
-        log("G: Life(%s) %d distinct states, %d edges; %d walks sampled" % (plan["life_cfg"], lst["distinct_states"], lst["states_generated"], len(walks)))
+        log("G: " + module + "(%s) %d distinct states, %d edges; %d walks sampled" % (plan["life_cfg"], lst["distinct_states"], lst["states_generated"], len(walks)))
         # R
         traces = [sc.path("t-walks.ndjson")]
         log("R: " + harness(zx, ["life-replay", "-in", sc.path("walks.ndjson"), "-catalog", sc.path("cat.json"),
-                                  "-out", traces[0], "-seed", str(seed), "-dir", sc.path("segs0")], sc).strip())
+                                  "-out", traces[0], "-seed", str(seed), "-dir", sc.path("segs0")] + plan.get("replay_args", []), sc).strip())
         # T
-        for k, (prof, n, steps) in enumerate(plan["profiles"]):
+        zxr = None
+        for k, ent in enumerate(plan["profiles"]):
+            prof, n, steps = ent[0], ent[1], ent[2]
             tp = sc.path("t-%s.ndjson" % prof)
-            log("T: %s " % prof + harness(zx, ["life", "-profile", prof, "-n", str(n), "-steps", str(steps), "-seed", str(seed * 1000 + k),
+            exe = zx
+            if "race" in ent[3:]:
+                zxr = zxr or build_harness(plan["tags"], race=True)
+                exe = zxr
+            log("T: %s " % prof + harness(exe, ["life", "-profile", prof, "-n", str(n), "-steps", str(steps), "-seed", str(seed * 1000 + k),
                                             "-out", tp, "-dir", sc.path("segs%d" % (k + 1))], sc).strip())
             traces.append(tp)
         allp = sc.path("all.ndjson")
@@ -274,11 +292,15 @@ def run_life_check(pid, tier, seed, replay=None, pre=None):
         for n in sorted(notes):
             log("NOTE: mismatch attributed to %s, not to this check: %s x%d" % (n[0], n[1], notes[n]))
         confirmed = confirm(pid, zx, sc, allp, viol, known, plan, seed, ranges)
+        for i, r in enumerate(RACES[:2]):
+            if "/zapx/" in r or REPO in r:
+                log("data race reported by the race detector inside the library:\n" + r[:1500])
+                confirmed.append(save_replay(pid, seed, 50 + i, {"property": pid, "key": "race/datarace", "family": "life", "report": r, "events": []}))
         cov = {"states": lst["distinct_states"] + vst["distinct_states"], "transitions": lst["states_generated"] + vst["states_generated"],
                "traces_validated_against_impl": tst["scenarios"],
                "samples": [json.loads(w) for w in walks[:2]] + samples,
-               "model": {"module": "Life.tla", "cfg": plan["life_cfg"], "distinct_states": lst["distinct_states"], "edges": lst["states_generated"],
-                         "invariants": ["AllWF", "AllObsConsistent", "OpenedEqualsFile"], "wall_s": lst["wall_s"]},
+               "model": {"module": module + ".tla", "cfg": plan["life_cfg"], "distinct_states": lst["distinct_states"], "edges": lst["states_generated"],
+                         "invariants": plan.get("invariants", ["AllWF", "AllObsConsistent", "OpenedEqualsFile"]), "wall_s": lst["wall_s"]},
                "walks_emitted": total_walks, "walks_replayed": len(walks),
                "trace": tst, "trace_validation": {"module": "TraceLife.tla", "events_consumed": tst["events"], "wall_s": vst["wall_s"],
                                                   "mismatching_steps": len(mism)},
